@@ -276,6 +276,10 @@ def _grid(R, rng, ctx):
             else:
                 grid[k] = tuple(grid[k])
                 R.stats.inc("grid_values_given_as_tuple")
+    if mode == "single" and ctx.get("_unit_i", 0) % 8 == 2:
+        # the boundary value 0 (strictest possible filter in Python) as the only candidate
+        grid["innovation_filtering"] = [0]
+        R.stats.inc("grids_with_threshold_zero")
     if mode == "single":
         # some hyper-parameters offer no choice (one value, not the default)
         for k in ("max_dt_sec", "common_subexpression_elimination"):
